@@ -36,6 +36,10 @@ type Parser struct {
 	// arguments, subscripts, operands of operator chains); bounded by maxNestingDepth
 	depth int
 
+	// how high the nesting has risen since the operator chain being parsed began: at
+	// least depth, and more where a tree grows upwards (see chain and onTop)
+	peak int
+
 	// if the parser parses a template document, here will be
 	// a reference to it (needed to access the template through Tags)
 	template *Template
@@ -63,7 +67,36 @@ const maxNestingDepth = 150 + 100*int(^uint(0)>>63)
 // what is on the stack when the expression is evaluated is the sum of both.
 func (p *Parser) deeper(n int) *Error {
 	p.depth += n
+	if p.depth > p.peak {
+		p.peak = p.depth
+	}
 	if p.depth+p.template.level > maxNestingDepth {
+		return p.Error(fmt.Sprintf("expression is nested too deeply (more than %d levels)", maxNestingDepth), nil)
+	}
+	return nil
+}
+
+// chain begins the accounting of an expression whose tree may grow upwards: a binary
+// operator's node takes what was parsed before the operator as its first operand, which
+// was parsed when depth did not contain that node yet ("((a) + 0) + 0": every "+ 0" puts
+// one more frame on top of a when the tree is evaluated). peak records how high the
+// levels of the expression reach, onTop raises it for such a node. The function that is
+// returned ends the accounting: the expression's height counts for what it is part of.
+func (p *Parser) chain() (end func()) {
+	outer := p.peak
+	p.peak = p.depth
+	return func() {
+		if outer > p.peak {
+			p.peak = outer
+		}
+	}
+}
+
+// onTop accounts for a node that is put on top of everything parsed since chain(), and
+// refuses a tree that is higher than the bound.
+func (p *Parser) onTop() *Error {
+	p.peak++
+	if p.peak+p.template.level > maxNestingDepth {
 		return p.Error(fmt.Sprintf("expression is nested too deeply (more than %d levels)", maxNestingDepth), nil)
 	}
 	return nil
